@@ -15,7 +15,7 @@ from __future__ import annotations
 import ast
 
 from ..absint import Interp, Raised, Record, Unsupported
-from ..astx import atoms, call_name, enclosing_stmt, expand, facts_at, has_fact, kwarg, last
+from ..astx import reaching_def, atoms, call_name, enclosing_stmt, expand, facts_at, has_fact, kwarg, last
 from ..cfg import CFG
 from ..index import AnchorError, parent
 from ..selftest import Twin
@@ -202,7 +202,13 @@ def run(chk) -> None:
     for c in sched:
         at = kwarg(c, "at_time", 1)
         e = expand(at, c) if at is not None else None
-        ok = isinstance(e, ast.BinOp) and isinstance(e.op, ast.Add) and f"{cmd}.delay" in (ast.unparse(e.left), ast.unparse(e.right)) and any("get_now" in ast.unparse(x) or ast.unparse(x) == "now" for x in (e.left, e.right))
+        def _is_clock(x: ast.AST) -> bool:
+            # the adapter clock, directly or through a local bound to `await <adapter>.get_now()`
+            if "get_now" in ast.unparse(x):
+                return True
+            d_ = reaching_def(x.id, c) if isinstance(x, ast.Name) else None
+            return d_ is not None and "get_now" in ast.unparse(d_)
+        ok = isinstance(e, ast.BinOp) and isinstance(e.op, ast.Add) and f"{cmd}.delay" in (ast.unparse(e.left), ast.unparse(e.right)) and any(_is_clock(x) for x in (e.left, e.right))
         chk.ob("C06.R2", "a delayed event is scheduled at now + delay", ok, m=mr, node=c, fn=pc, instance="delay:at_time", reason=f"at_time={ast.unparse(at) if at is not None else None}")
         for n in cfg.nodes_of(enclosing_stmt(c)):
             f = facts_at(cfg, n, expand_locals=True)
@@ -212,10 +218,27 @@ def run(chk) -> None:
     loops = [n for n in ast.walk(pop) if isinstance(n, ast.While)]
     chk.floor("C06.R2", "pop loops in pop_due_ticks", len(loops), 1)
     nowp = param(pop, 1)
+    cfp = CFG(pop)
+    pops = [c for c in ast.walk(pop) if isinstance(c, ast.Call) and last(call_name(c)) in ("heappop", "pop", "popleft")]
+    chk.floor("C06.R2", "pop sites in pop_due_ticks", len(pops), 1)
+    for c in pops:
+        heap = ast.unparse(c.args[0]) if last(call_name(c)) == "heappop" and c.args else ast.unparse(c.func.value) if isinstance(c.func, ast.Attribute) else "?"
+        for n in cfp.nodes_of(enclosing_stmt(c)):
+            f = facts_at(cfp, n, expand_locals=True)
+            # on every path to the pop: the heap is non-empty and not (now < time of its first entry); nothing else decides
+            due = (f"{nowp} < {heap}[0][0]", False) in f
+            nonempty = (heap, True) in f
+            chk.ob("C06.R2", "a scheduled tick is released only when its time has come (scheduled_time <= now)", due and nonempty, m=mr, node=c, fn=pop, instance="pop:only-due",
+                   reason=f"facts on the path to the pop: {sorted(f)}")
     for lp in loops:
-        a = set(atoms(lp.test, True))
-        want = {("self.scheduled_wakeups", True), (f"{nowp} < self.scheduled_wakeups[0][0]", False)}
-        chk.ob("C06.R2", "a scheduled tick is released only when its time has come (scheduled_time <= now)", a == want, m=mr, node=lp, fn=pop, instance="pop:only-due", reason=f"loop condition atoms {sorted(a)}")
+        # and every due tick is released: the loop is left only when the heap is empty or its first entry is not due yet
+        exits = [t for t in cfp.nodes if t.kind == "test" and any(a is lp for a in [t.ast] + list(__import__("sa.index", fromlist=["ancestors"]).ancestors(t.ast)))]
+        extra = []
+        for t in exits:
+            for a_, pol in atoms(expand(t.ast.test, t.ast), True):
+                if a_ not in (heap, f"{nowp} < {heap}[0][0]"):
+                    extra.append(a_)
+        chk.ob("C06.R2", "the release loop stops only on an empty heap or a first entry that is not due yet", not extra, m=mr, node=lp, fn=pop, instance="pop:all-due", reason=f"further loop conditions {sorted(set(extra))}")
     _, st = repo.func(f"{RUNNER}.schedule_tick")
     push = [c for c in ast.walk(st) if isinstance(c, ast.Call) and last(call_name(c)) == "heappush"]
     ok = bool(push) and isinstance(push[0].args[1], ast.Tuple) and ast.unparse(push[0].args[1].elts[0]) == param(st, 2)
